@@ -673,6 +673,8 @@ func NewMulBigIntMemoryUsage(a, b *big.Int) MemoryUsage {
 }
 
 func NewModBigIntMemoryUsage(a, b *big.Int) MemoryUsage {
+	// NOTE: a and b are compared by their absolute values
+	//
 	// if a < b or |b| == 1:
 	//     |a| + 4
 	// else if |b| < 100:
@@ -686,7 +688,7 @@ func NewModBigIntMemoryUsage(a, b *big.Int) MemoryUsage {
 	bWordLength := len(b.Bits())
 
 	var resultWordLength int
-	if a.Cmp(b) < 0 || bWordLength == 1 {
+	if a.CmpAbs(b) < 0 || bWordLength == 1 {
 		resultWordLength = aWordLength + 4
 	} else if bWordLength < 100 {
 		resultWordLength = aWordLength - bWordLength + 5
